@@ -87,7 +87,7 @@ def dec_arg(v):
     raise ValueError(v)
 
 
-def run_py(src: str, entry: str, args: list, budget: int = 20000, max_abs: int = 2**30) -> dict:
+def run_py(src: str, entry: str, args: list, budget: int = 20000, max_abs: int = 2**26) -> dict:
     """Returns {"trace": [events], "end": "return"|"panic", "ret": enc|["skip"]} or {"skip": reason}."""
     events = []
 
